@@ -520,6 +520,10 @@ pub fn gen_stream(bytes: &[u8], cfg: &GenCfg) -> Stream {
             }
             if ch.pick(16) == 15 {
                 directives.push(Directive::Reserved);
+                // several reserved directives in one document are legal too
+                if ch.pick(3) == 2 {
+                    directives.push(Directive::Reserved);
+                }
             }
         }
         let mut g = TreeGen { ch: &mut ch, cfg, budget: cfg.max_nodes / ndocs + 1, anchors: vec![], named_handle: named };
@@ -629,15 +633,16 @@ pub enum Site {
     /// a continuation line of a multi-line flow collection; `block_n` = indentation of the enclosing block construct
     FlowContLine { line_start: usize, indent: usize, block_n: isize },
     /// a single-line plain scalar without properties in entry / value position of a block collection
-    PlainValue { start: usize, len: usize },
+    PlainValue { start: usize, len: usize, doc: usize },
     /// a single-line scalar without properties used as implicit key of a block mapping
-    ImplicitKey { start: usize, end: usize, quoted: bool },
+    ImplicitKey { start: usize, end: usize, quoted: bool, flow_pair: bool },
     DocEndMarker { pos_after: usize },
 }
 
 pub struct Renderer<'a> {
     pub sites: Vec<Site>,
     in_implicit_block_key: bool,
+    cur_doc: usize,
     pub out: String,
     ch: Choices<'a>,
     pub feat: Features,
@@ -652,7 +657,7 @@ pub struct Renderer<'a> {
 
 impl<'a> Renderer<'a> {
     pub fn new(layout: &'a [u8], rich: bool) -> Self {
-        Renderer { sites: vec![], in_implicit_block_key: false, out: String::new(), ch: Choices::new(layout), feat: Features::default(), after_block_scalar: false, rich, bare_question: false }
+        Renderer { sites: vec![], in_implicit_block_key: false, cur_doc: 0, out: String::new(), ch: Choices::new(layout), feat: Features::default(), after_block_scalar: false, rich, bare_question: false }
     }
 
     fn spaces(&mut self, n: usize) {
@@ -921,8 +926,14 @@ impl<'a> Renderer<'a> {
             // the implicit key of a single pair in a flow sequence must stay on one line (C06 D07)
             let was = self.in_implicit_block_key;
             self.in_implicit_block_key = in_seq;
+            let kstart = self.out.len();
             self.flow_node(k, cont, key_single, true);
             self.in_implicit_block_key = was;
+            if in_seq && !k.has_props() {
+                if let Kind::Scalar { style, .. } = &k.kind {
+                    self.sites.push(Site::ImplicitKey { start: kstart, end: self.out.len(), quoted: *style != Style::Plain, flow_pair: true });
+                }
+            }
         }
         if v_omitted && !in_seq && !k_omitted && self.ch.pick(2) == 1 {
             // `k` alone in a flow mapping: value omitted
@@ -1056,7 +1067,7 @@ impl<'a> Renderer<'a> {
                     self.flow_node(node, min_child, false, false);
                     if let Kind::Scalar { style: Style::Plain, lines, .. } = &node.kind {
                         if lines.len() == 1 && !node.has_props() && matches!(intro, Intro::Dash(_) | Intro::KeyColon(_) | Intro::ExplicitColon(_)) {
-                            self.sites.push(Site::PlainValue { start: vstart, len: self.out.len() - vstart });
+                            self.sites.push(Site::PlainValue { start: vstart, len: self.out.len() - vstart, doc: self.cur_doc });
                         }
                     }
                 }
@@ -1189,7 +1200,7 @@ impl<'a> Renderer<'a> {
             self.in_implicit_block_key = false;
             if let Kind::Scalar { style, .. } = &key.kind {
                 if !key.has_props() {
-                    self.sites.push(Site::ImplicitKey { start: kstart, end: self.out.len(), quoted: *style != Style::Plain });
+                    self.sites.push(Site::ImplicitKey { start: kstart, end: self.out.len(), quoted: *style != Style::Plain, flow_pair: false });
                 }
             }
             let needs_blank = matches!(key.kind, Kind::Alias(_)) || (matches!(key.kind, Kind::Omitted) && key.has_props());
@@ -1216,6 +1227,7 @@ impl<'a> Renderer<'a> {
             self.feat.multi_doc += 1;
         }
         for (k, d) in s.docs.iter().enumerate() {
+            self.cur_doc = k;
             if k == 0 && self.rich && self.ch.pick(8) == 7 {
                 self.out.push_str("# leading comment\n");
                 self.feat.comments += 1;
